@@ -4,6 +4,7 @@
 #pragma once
 #include <boost/graph/adjacency_list.hpp>
 #include <boost/property_map/property_map.hpp>
+#include <functional>
 #include <list>
 #include <map>
 #include <string>
@@ -16,6 +17,12 @@ namespace vb {
 template<class W>
 using GraphT = boost::adjacency_list<boost::vecS, boost::vecS, boost::undirectedS, boost::no_property,
         boost::property<boost::edge_weight_t, W>>;
+
+// Optional hooks around the add_edge loop of Built (used by the MPI harness to control the heap layout, i.e. the
+// pointer order, of the edge property nodes). Out-edge vectors are reserved beforehand, so the edge-list nodes are the
+// only allocations made between the two hooks.
+inline std::function<void(int)> &edge_alloc_begin() { static std::function<void(int)> f; return f; }
+inline std::function<void()> &edge_alloc_end() { static std::function<void()> f; return f; }
 
 template<class W>
 struct Built {
@@ -30,11 +37,18 @@ struct Built {
     Built(const vg::EdgeList &el, const std::vector<double> &w, const std::vector<int> *order = nullptr) : g(el.n) {
         edges.resize(el.m());
         ends = el.e;
+        {
+            std::vector<int> deg(el.n, 0);
+            for (auto &e : el.e) { deg[e.first]++; deg[e.second]++; }
+            for (int v = 0; v < el.n; ++v) g.out_edge_list(v).reserve(deg[v]);
+        }
+        if (edge_alloc_begin()) edge_alloc_begin()(el.m());
         for (int k = 0; k < el.m(); ++k) {
             int i = order ? (*order)[k] : k;
             auto r = boost::add_edge(el.e[i].first, el.e[i].second, (W) w[i], g);
             edges[i] = r.first;
         }
+        if (edge_alloc_end()) edge_alloc_end()();
         // descriptors stay valid for vecS out-edge lists? The edge property lives in a std::list node,
         // so its address is stable; re-read descriptors from the final graph to be safe.
         typename boost::graph_traits<Graph>::edge_iterator ei, ee;
@@ -60,6 +74,9 @@ struct CycleSetCheck {
     std::vector<uint64_t> masks;
     std::vector<double> weights;   // per cycle, exact on dyadic inputs
     double total = 0;
+    bool identifiable = true;      // every listed descriptor is an edge of the caller's graph
+    std::vector<double> listed_weights;   // per emitted list: sum of caller weights over listed edges (with repetitions), valid if identifiable
+    double listed_total = 0;
     void fail(const std::string &c, const std::string &m) { if (ok) { ok = false; cls = c; msg = m; } }
 };
 
@@ -71,6 +88,7 @@ CycleSetCheck check_cycle_set(const Built<W> &b, const std::vector<double> &w, c
     int cnt = 0;
     for (auto &cyc : cycles) {
         ++cnt;
+        { double lw = 0; for (auto &e : cyc) { auto it = b.by_prop.find(e.get_property()); if (it == b.by_prop.end()) { r.identifiable = false; break; } lw += w[it->second]; } r.listed_weights.push_back(lw); r.listed_total += lw; }
         uint64_t mask = 0; double cw = 0;
         std::vector<int> deg(n, 0);
         std::vector<int> ids;
